@@ -11,8 +11,10 @@
    the reloaded object again.
 4. comparison: real token stream = expected stream of the spec; projection of the original = the abstract
    instance; reloaded projection / getters / query answers = those of the original; second file byte-identical.
-   Also: the file-name resolution of ASerializable (container / prefix) on the model and on the real library,
-   and the grid exchange formats that can be written and read.
+   Also: the file-name resolution of ASerializable (container / prefix) on the model and on the real library -- one name
+   per kind (relative, at most 2 characters, absolute), and SESSIONS over names that begin with the prefix (x, <prefix>x,
+   <prefix><prefix>x, the prefix itself): distinct objects are written under all the names, then each name must give back
+   its own object --, and the grid exchange formats that can be written and read.
 5. histories (classes with a Db part): TLC (MC_NeutralHist) explores a small state machine over two objects of the same
    class and width -- steps: delete a column, add a column, delete + add, WRITE one of the objects -- checks in every
    state the law "what the writer collects from the object (through its UIDs) = its abstract content", and emits every
@@ -480,15 +482,26 @@ def judge(ck, cases, obs):
     return per_class, model_mis, confirmed, unconfirmed, layout_only
 
 
+PREFIX_STRING = "PP-"     # prefix of the file-name sessions (3 characters: a name equal to the prefix is still a "long" name)
+
+
 def path_cases(ck):
     """file-name resolution of ASerializable under the container / prefix settings: model verdict vs real library"""
     w = ck.work
     cfg = os.path.join(w, "paths.cfg")
     open(cfg, "w").write("SPECIFICATION Spec\nCONSTANTS\n Level = 1\n Repaired = %s\n" % repaired_tla())
-    pcs = vlib.tlc_emit_json("EmitNFPaths", cfg, os.path.join(w, "paths.json"))
+    emitted = vlib.tlc_emit_json("EmitNFPaths", cfg, os.path.join(w, "paths.json"))
+    pcs, sessions = emitted["cases"], emitted["sessions"]
     exe = vlib.build_harness("nf_run")
     cp, op = os.path.join(w, "pcases.ndjson"), os.path.join(w, "pobs.ndjson")
-    vlib.write_ndjson(cp, [{"id": i + 1, "c": "Path", "o": p} for i, p in enumerate(pcs)])
+    # sessions over names that begin with the prefix: atoms rendered as strings (every name relative, more than 2 characters)
+    atoms = {"P": PREFIX_STRING, "x": "x.nf"}
+    srecs = []
+    for k, se in enumerate(sessions):
+        names = ["".join(atoms[a] for a in nm) for nm in se["names"]]
+        srecs.append({"id": len(pcs) + k + 1, "c": "PathSession",
+                      "o": {"container": se["container"], "prefix": se["prefix"], "prefix_string": PREFIX_STRING, "names": names}})
+    vlib.write_ndjson(cp, [{"id": i + 1, "c": "Path", "o": p} for i, p in enumerate(pcs)] + srecs)
     tmp = os.path.join(w, "ptmp")
     os.makedirs(tmp, exist_ok=True)
     vlib.run_harness(exe, [cp, op, tmp], timeout=600)
@@ -503,6 +516,29 @@ def path_cases(ck):
                         {"settings": p, "observed": ob, "how": "Table::dumpToNF(name) then Table::createFromNF(name) under the settings"})
         elif not p["same"]:
             log("[C08] note: the model predicts that createFromNF does not look where dumpToNF wrote, the real library found the file: %s" % p)
+    nreads = 0
+    for se, sr in zip(sessions, srecs):
+        ob = obs[sr["id"]]
+        names = sr["o"]["names"]
+        if "got" not in ob or len(ob["got"]) != len(names):
+            raise Broken("nf_run did not run the file-name session %s" % json.dumps(sr["o"]))
+        forms = ["".join(nm) for nm in se["names"]]
+        replay = {"settings": sr["o"], "observed": ob,
+                  "how": "under the settings, Table number i (cell = i) is written with dumpToNF(names[i-1]) for every name, then "
+                         "createFromNF(names[i-1]) is called for every name: got[i-1] = cell of the object returned (0: none)"}
+        for i, (form, name) in enumerate(zip(forms, names)):
+            nreads += 1
+            ck.add("traces_validated_against_impl")
+            ck.add("evaluations")
+            got, model = ob["got"][i], se["reads"][i]
+            if not ob["dumped"][i] or got != i + 1:
+                ck.disagree({"class": "Path", "kind": "filename-session", "form": form, "container": se["container"], "prefix": se["prefix"],
+                             "outcome": "dump-failed" if not ob["dumped"][i] else "not-found" if got == 0 else "other-object",
+                             "model": "own" if model == i + 1 else "none" if model == 0 else "other"}, dict(replay, name=name, rank=i + 1, got=got))
+            elif model != i + 1:
+                log("[C08] note: the model of buildFileName predicts that %s is not read back under %s, the real library reads it back" % (name, sr["o"]))
+    ck.cov["file_name_sessions"] = {"settings": len(sessions), "names_per_session": [len(se["names"]) for se in sessions], "reads_judged": nreads,
+                                    "name_forms": sorted({"".join(nm) for se in sessions for nm in se["names"]}), "prefix_string": PREFIX_STRING}
     ck.cov["file_name_cases"] = len(pcs)
     ck.cov["file_name_cases_model_mismatch"] = sum(1 for p in pcs if not p["same"])
     return len(pcs)
